@@ -1,363 +1,1210 @@
 import FitModel.Shared
-/-! Lemmas for C15: invariants of interleaved executions over the shared-state model. Core Lean only. -/
+/-! Lemmas for C15: invariants of the interleaving semantics of `Fit.Shared` and the simulation of every thread by its
+solo run. -/
 namespace Fit.Shared
 
-def ShOK (sh : Sh) : Prop := (∀ a ∈ sh.pool, a = zeroArr) ∧ (sh.once = true → sh.table = theTable)
+/-! ### small facts -/
 
-/-- the shared state only grows: the once stays done; the options objects stay what they are -/
-def ShLe (sh sh' : Sh) : Prop :=
-  (sh.once = true → sh'.once = true) ∧ sh'.opts = sh.opts
+@[simp] theorem upd_same {α : Type} (f : Nat → α) (i : Nat) (v : α) : upd f i v i = v := by simp [upd]
 
-/-- every options object is what the caller made it (`Factory` set or nil): nobody has written one -/
-def OptsRel (sh0 sh : Sh) : Prop := sh.opts = sh0.opts
+theorem upd_other {α : Type} (f : Nat → α) (i j : Nat) (v : α) (h : j ≠ i) : upd f i v j = f j := by simp [upd, h]
 
-def PrivOK (sh : Sh) (p : Priv) : Prop :=
-  (p.onceSeen = true → sh.once = true) ∧ (∀ a, p.held = some a → a.length = poolsize)
-
-theorem removeNth_mem {l : List Arr} {i : Nat} {a : Arr} (h : a ∈ removeNth l i) : a ∈ l := by
+theorem removeNth_mem {l : List Nat} {i : Nat} {a : Nat} (h : a ∈ removeNth l i) : a ∈ l := by
   induction l generalizing i with
   | nil => simp [removeNth] at h
   | cons x xs ih =>
     cases i with
     | zero => simp [removeNth] at h; exact List.mem_cons_of_mem _ h
-    | succ i =>
-      simp only [removeNth, List.mem_cons] at h
-      rcases h with rfl | h
-      · exact List.mem_cons_self
+    | succ n =>
+      simp [removeNth] at h
+      rcases h with h | h
+      · simp [h]
       · exact List.mem_cons_of_mem _ (ih h)
 
-theorem poolGet_zero (pool : List Arr) (c : Nat) (h : ∀ a ∈ pool, a = zeroArr) :
-    (poolGet pool c).1 = zeroArr ∧ ∀ a ∈ (poolGet pool c).2, a = zeroArr := by
-  unfold poolGet
-  by_cases hc : c = 0
-  · simp [hc]; exact h
-  · simp only [hc, if_false]
-    cases pool with
-    | nil => simp
-    | cons x xs =>
-      simp only
-      constructor
-      · rw [List.getD_eq_getElem?_getD]
-        cases hg : (x :: xs)[(c - 1) % (x :: xs).length]? with
-        | none => rfl
-        | some y => exact h y (List.mem_of_getElem? hg)
-      · intro a ha; exact h a (removeNth_mem ha)
+theorem removeNth_nodup {l : List Nat} (i : Nat) (h : l.Nodup) : (removeNth l i).Nodup := by
+  induction l generalizing i with
+  | nil => simp [removeNth]
+  | cons x xs ih =>
+    cases i with
+    | zero => simp [removeNth]; exact (List.nodup_cons.mp h).2
+    | succ n =>
+      simp only [removeNth]
+      have hx := List.nodup_cons.mp h
+      exact List.nodup_cons.mpr ⟨fun hm => hx.1 (removeNth_mem hm), ih n hx.2⟩
 
-theorem privOK_mono {sh sh' : Sh} {p : Priv} (h : PrivOK sh p) (hle : ShLe sh sh') : PrivOK sh' p := by
-  exact ⟨fun ho => hle.1 (h.1 ho), h.2⟩
+/-- the element taken out of a duplicate-free list is no longer in it -/
+theorem removeNth_not_mem {l : List Nat} (n : Nat) (h : l.Nodup) (hn : n < l.length) : l.getD n 0 ∉ removeNth l n := by
+  induction l generalizing n with
+  | nil => simp at hn
+  | cons x xs ih =>
+    have hx := List.nodup_cons.mp h
+    cases n with
+    | zero => simp [removeNth]; exact hx.1
+    | succ m =>
+      simp only [removeNth, List.getD_cons_succ]
+      have hm : m < xs.length := by simpa using hn
+      intro hmem
+      rcases List.mem_cons.mp hmem with h1 | h1
+      · have : xs.getD m 0 ∈ xs := by
+          simp [List.getD, List.getElem?_eq_getElem hm]
+        exact hx.1 (h1 ▸ this)
+      · exact ih m hx.2 hm h1
 
-theorem shLe_refl (sh : Sh) : ShLe sh sh := ⟨id, rfl⟩
+theorem getD_mem_of_lt {l : List Nat} {n : Nat} (hn : n < l.length) : l.getD n 0 ∈ l := by
+  simp [List.getD, List.getElem?_eq_getElem hn]
 
-theorem overlay_length (vals : List Nat) (a : Arr) : (overlay vals a).length = a.length := by
-  simp only [overlay, List.length_take, List.length_append, List.length_drop]
-  omega
+theorem overlay_take (vals a : List Nat) : (overlay vals a).take vals.length = vals := by
+  simp [overlay]
 
-/-- one action, under the invariants: the private effect is the solo effect; the shared invariants are kept and the
-shared state only grows -/
-theorem step_spec (sh0 sh : Sh) (p : Priv) (a : Act) (c : Nat) (hok : ShOK sh) (hrel : OptsRel sh0 sh) (hp : PrivOK sh p) :
-    (step a c p sh).1 = privSolo sh0.opts a p ∧ ShOK (step a c p sh).2 ∧ OptsRel sh0 (step a c p sh).2 ∧
-    ShLe sh (step a c p sh).2 ∧ PrivOK (step a c p sh).2 (step a c p sh).1 := by
-  cases a with
-  | onceDo =>
-    by_cases h : sh.once = true
-    · have e : (step Act.onceDo c p sh).2 = sh := by simp [step, h]
-      rw [e]
-      exact ⟨rfl, hok, hrel, shLe_refl _, fun _ => h, hp.2⟩
-    · have e : (step Act.onceDo c p sh).2 = { sh with once := true, table := theTable } := by simp [step, h]
-      rw [e]
-      refine ⟨rfl, ⟨hok.1, fun _ => rfl⟩, hrel, ⟨fun _ => rfl, rfl⟩, fun _ => rfl, hp.2⟩
-  | readTable k =>
-    refine ⟨?_, hok, hrel, shLe_refl _, hp⟩
-    simp only [step, privSolo]
-    by_cases h : p.onceSeen = true
-    · have := hok.2 (hp.1 h); simp [h, this]
-    · simp [h]
-  | get =>
-    obtain ⟨h1, h2⟩ := poolGet_zero sh.pool c hok.1
-    refine ⟨?_, ⟨h2, hok.2⟩, hrel, ⟨id, rfl⟩, ?_⟩
-    · simp only [step, privSolo, h1]
-    · refine ⟨hp.1, ?_⟩
-      intro a ha
-      simp only [step, Option.some.injEq] at ha
-      rw [← ha, h1]; simp [zeroArr]
-  | write vals =>
-    refine ⟨rfl, hok, hrel, shLe_refl _, hp.1, ?_⟩
-    intro a ha
-    simp only [step, Option.map_eq_some_iff] at ha
-    obtain ⟨b, hb, rfl⟩ := ha
-    rw [overlay_length]; exact hp.2 b hb
-  | clone k => exact ⟨rfl, hok, hrel, shLe_refl _, hp⟩
-  | put =>
-    cases hh : p.held with
-    | none =>
-      simp only [step, hh, privSolo]
-      refine ⟨?_, hok, hrel, shLe_refl _, hp⟩
-      cases p; simp_all
-    | some a =>
-      simp only [step, hh, privSolo]
-      refine ⟨trivial, ⟨?_, hok.2⟩, hrel, ⟨id, rfl⟩, hp.1, ?_⟩
-      · intro b hb
-        rcases List.mem_cons.mp hb with rfl | hb
-        · have hl := hp.2 a hh
-          simp only [zeroArr, ← hl]
-          exact List.map_const' ..
-        · exact hok.1 b hb
-      · intro b hb; simp at hb
-  | optRead o =>
-    refine ⟨?_, hok, hrel, shLe_refl _, hp⟩
-    simp only [step, privSolo]
-    rw [hrel]
-  | loc v => exact ⟨rfl, hok, hrel, shLe_refl _, hp⟩
+@[simp] theorem overlay_nil_right (vals : List Nat) : overlay vals [] = vals := by simp [overlay]
 
-end Fit.Shared
+/-! ### well-formedness of the part still to do -/
 
-namespace Fit.Shared
+theorem wfRun_append (env : Env) (xs ys : List Act) (w : WfSt) :
+    wfRun env (xs ++ ys) w = (wfRun env xs w).bind (wfRun env ys) := by
+  induction xs generalizing w with
+  | nil => simp [wfRun]
+  | cons a rest ih =>
+    simp only [List.cons_append, wfRun]
+    cases h : wfStep env a w with
+    | none => simp
+    | some w' => simp [ih]
 
-def soloPriv (opts0 : Nat → Option Nat) (acts : List Act) : Priv :=
-  acts.foldl (fun p a => privSolo opts0 a p) initPriv
+theorem soloRun_snoc (env : Env) (cell0 : Nat → Nat) (opts0 : Nat → Option Nat) (xs : List Act) (a : Act) :
+    soloRun env cell0 opts0 (xs ++ [a]) = soloStep env cell0 opts0 a (soloRun env cell0 opts0 xs) := by
+  simp [soloRun, List.foldl_append]
 
-structure CfgInv (sh0 : Sh) (cfg : Cfg) : Prop where
-  shok : ShOK cfg.sh
-  rel : OptsRel sh0 cfg.sh
-  thr : ∀ t ∈ cfg.threads, PrivOK cfg.sh t.priv ∧ t.priv = soloPriv sh0.opts t.done
+/-- layer A: every thread's completed actions are a well-formed prefix and the rest continues it -/
+def WfCont (env : Env) (t : Thread) : Prop :=
+  ∃ w, wfRun env t.done initWf = some w ∧ (wfRun env t.todo w).isSome
 
-theorem optsRel_refl (sh : Sh) : OptsRel sh sh := rfl
+theorem wfCont_init (env : Env) (p : List Act) (h : wf env p = true) :
+    WfCont env { priv := initPriv, done := [], todo := p } := by
+  refine ⟨initWf, by simp [wfRun], ?_⟩
+  simpa [wf] using h
 
-theorem cfgInv_init (progs : List (List Act)) (sh0 : Sh) (h0 : ShOK sh0) : CfgInv sh0 (initCfg progs sh0) := by
-  refine ⟨h0, optsRel_refl _, ?_⟩
-  intro t ht
-  simp only [initCfg, List.mem_map] at ht
-  obtain ⟨p, _, rfl⟩ := ht
-  refine ⟨⟨?_, ?_⟩, rfl⟩ <;> simp [initPriv]
+/-- popping the head action keeps layer A, and exposes the discipline state before and after it -/
+theorem wfCont_pop (env : Env) (p : Priv) (d : List Act) (a : Act) (rest : List Act) (p' : Priv)
+    (h : WfCont env { priv := p, done := d, todo := a :: rest }) :
+    ∃ w w', wfRun env d initWf = some w ∧ wfStep env a w = some w' ∧ wfRun env (d ++ [a]) initWf = some w' ∧
+      (wfRun env rest w').isSome ∧ WfCont env { priv := p', done := d ++ [a], todo := rest } := by
+  obtain ⟨w, hw, hrest⟩ := h
+  simp only [wfRun] at hrest
+  cases hs : wfStep env a w with
+  | none => simp [hs] at hrest
+  | some w' =>
+    simp [hs] at hrest
+    have hd : wfRun env (d ++ [a]) initWf = some w' := by
+      rw [wfRun_append, hw]; simp [wfRun, hs]
+    exact ⟨w, w', hw, hs, hd, by simpa using hrest, ⟨w', hd, by simpa using hrest⟩⟩
 
-theorem cfgInv_step (sh0 : Sh) (cfg : Cfg) (i c : Nat) (inv : CfgInv sh0 cfg) : CfgInv sh0 (stepThread cfg i c) := by
-  unfold stepThread
-  cases hget : cfg.threads[i]? with
-  | none => exact inv
+/-! ### the invariant -/
+
+/-- a `Once` row and the rows it builds: after `done` they have their built content; while the closure runs, the rows
+already filled have it -/
+def OnceOK (env : Env) (sh : Sh) (o : Nat) : Prop :=
+  match sh.once o with
+  | .idle => True
+  | .running _ k => k ≤ closureLen env o ∧
+      ∀ idx r, 2 * idx + 1 < k → (env.body o)[idx]? = some r → sh.cell r = env.built r
+  | .done => ∀ r ∈ env.body o, sh.cell r = env.built r
+
+/-- what is true of one thread: its completed actions are a well-formed prefix that the rest continues, what it has
+observed is what its solo run observes, it holds an object exactly when its program says so, a held object whose content
+its own actions determine has that content, and every `Once` it went through is done -/
+def TI (env : Env) (cell0 : Nat → Nat) (opts0 : Nat → Option Nat) (sh : Sh) (t : Thread) : Prop :=
+  ∃ w, wfRun env t.done initWf = some w ∧ (wfRun env t.todo w).isSome ∧
+    t.priv.out = (soloRun env cell0 opts0 t.done).out ∧
+    t.priv.held.isSome = w.holding ∧ (soloRun env cell0 opts0 t.done).holding = w.holding ∧
+    (w.clean = true → ∃ c, (soloRun env cell0 opts0 t.done).known = some c ∧ ∀ id, t.priv.held = some id → sh.heap id = c) ∧
+    (∀ o, o ∈ w.seen → sh.once o = .done)
+
+structure Inv (env : Env) (cell0 : Nat → Nat) (opts0 : Nat → Option Nat) (cfg : Cfg) : Prop where
+  opts : cfg.sh.opts = opts0
+  ro : ∀ r, env.onceOf r = none → cfg.sh.cell r = cell0 r
+  once : ∀ o, OnceOK env cfg.sh o
+  /-- no two threads hold the same object -/
+  hh : ∀ (i j : Nat) (t t' : Thread) (id : Nat), cfg.threads[i]? = some t → cfg.threads[j]? = some t' → t.priv.held = some id →
+    t'.priv.held = some id → i = j
+  /-- a held object is in no pool -/
+  hp : ∀ (i : Nat) (t : Thread) (id q : Nat), cfg.threads[i]? = some t → t.priv.held = some id → id ∉ cfg.sh.pool q
+  /-- an object is in a pool at most once, and in one pool only -/
+  pn : ∀ q, (cfg.sh.pool q).Nodup
+  pd : ∀ q1 q2 id, q1 ≠ q2 → id ∈ cfg.sh.pool q1 → id ∉ cfg.sh.pool q2
+  /-- identities in use are below the allocation counter -/
+  fh : ∀ (i : Nat) (t : Thread) (id : Nat), cfg.threads[i]? = some t → t.priv.held = some id → id < cfg.sh.next
+  fp : ∀ q id, id ∈ cfg.sh.pool q → id < cfg.sh.next
+  thr : ∀ (i : Nat) (t : Thread), cfg.threads[i]? = some t → TI env cell0 opts0 cfg.sh t
+
+/-- well-formed initial shared state: no `Once` closure is in flight (each is untouched or done, with its rows built),
+pools hold each object once, identities are below the allocation counter -/
+def ShOK (env : Env) (sh0 : Sh) : Prop :=
+  (∀ o, sh0.once o = .idle ∨ (sh0.once o = .done ∧ ∀ r ∈ env.body o, sh0.cell r = env.built r)) ∧
+  (∀ q, (sh0.pool q).Nodup) ∧ (∀ q1 q2 id, q1 ≠ q2 → id ∈ sh0.pool q1 → id ∉ sh0.pool q2) ∧
+  (∀ q id, id ∈ sh0.pool q → id < sh0.next)
+
+theorem inv_init (env : Env) (progs : List (List Act)) (sh0 : Sh) (h0 : ShOK env sh0)
+    (hwf : ∀ p ∈ progs, wf env p = true) : Inv env sh0.cell sh0.opts (initCfg progs sh0) := by
+  obtain ⟨ho, hn, hd, hf⟩ := h0
+  have hthr : ∀ (i : Nat) (t : Thread), (initCfg progs sh0).threads[i]? = some t → t.priv = initPriv ∧ t.done = [] ∧ t.todo ∈ progs := by
+    intro i t ht
+    simp only [initCfg, List.getElem?_map] at ht
+    cases hp : progs[i]? with
+    | none => simp [hp] at ht
+    | some p =>
+      simp [hp] at ht
+      subst ht
+      exact ⟨rfl, rfl, List.mem_of_getElem? hp⟩
+  refine { opts := rfl, ro := fun _ _ => rfl, once := ?_, hh := ?_, hp := ?_, pn := hn, pd := hd, fh := ?_, fp := hf, thr := ?_ }
+  · intro o
+    unfold OnceOK
+    rcases ho o with h | ⟨h, hb⟩
+    · simp [initCfg, h]
+    · simp [initCfg, h]; exact hb
+  · intro i j t t' id ht _ hh _
+    have := (hthr i t ht).1
+    simp [this, initPriv] at hh
+  · intro i t id q ht hh
+    have := (hthr i t ht).1
+    simp [this, initPriv] at hh
+  · intro i t id ht hh
+    have := (hthr i t ht).1
+    simp [this, initPriv] at hh
+  · intro i t ht
+    obtain ⟨hp, hd', hm⟩ := hthr i t ht
+    refine ⟨initWf, by simp [hd', wfRun], ?_, ?_, ?_, ?_, ?_, ?_⟩
+    · have := hwf _ hm
+      simpa [wf] using this
+    · simp [hp, hd', initPriv, soloRun, initSolo]
+    · simp [hp, initPriv, initWf]
+    · simp [hd', soloRun, initSolo, initWf]
+    · simp [initWf]
+    · simp [initWf]
+
+theorem getElem?_set_thread (l : List Thread) (i j : Nat) (x t : Thread) (h : (l.set i x)[j]? = some t) :
+    (j = i ∧ t = x ∧ i < l.length) ∨ (j ≠ i ∧ l[j]? = some t) := by
+  rw [List.getElem?_set] at h
+  by_cases hij : i = j
+  · subst hij
+    simp at h
+    left; exact ⟨rfl, h.2.symm, h.1⟩
+  · simp [hij] at h
+    right; exact ⟨fun e => hij e.symm, h⟩
+
+/-- a thread that did not move keeps its invariant when the shared state changes only in ways that do not concern it -/
+theorem ti_frame (env : Env) (cell0 : Nat → Nat) (opts0 : Nat → Option Nat) (sh sh' : Sh) (u : Thread)
+    (h : TI env cell0 opts0 sh u)
+    (hdone : ∀ o, sh.once o = .done → sh'.once o = .done)
+    (hheap : ∀ id, u.priv.held = some id → sh'.heap id = sh.heap id) : TI env cell0 opts0 sh' u := by
+  obtain ⟨w, h1, h2, h3, h4, h5, h6, h7⟩ := h
+  refine ⟨w, h1, h2, h3, h4, h5, ?_, fun o ho => hdone o (h7 o ho)⟩
+  intro hc
+  obtain ⟨c, hk, hh⟩ := h6 hc
+  exact ⟨c, hk, fun id hid => by rw [hheap id hid]; exact hh id hid⟩
+
+/-- re-establishing the invariant after thread `i` (was `t`, becomes `t'`) took a step that turned `cfg.sh` into `sh'` -/
+theorem inv_update (env : Env) (cell0 : Nat → Nat) (opts0 : Nat → Option Nat) (cfg : Cfg) (i : Nat) (t t' : Thread) (sh' : Sh)
+    (ht : cfg.threads[i]? = some t) (inv : Inv env cell0 opts0 cfg)
+    (hopts : sh'.opts = cfg.sh.opts)
+    (hro : ∀ r, env.onceOf r = none → sh'.cell r = cfg.sh.cell r)
+    (honce : ∀ o, OnceOK env sh' o)
+    (hdone : ∀ o, cfg.sh.once o = .done → sh'.once o = .done)
+    (hheap : ∀ id, id < cfg.sh.next → t.priv.held ≠ some id → sh'.heap id = cfg.sh.heap id)
+    (hnext : cfg.sh.next ≤ sh'.next)
+    (hpool : ∀ q id, id ∈ sh'.pool q → id ∈ cfg.sh.pool q ∨ t.priv.held = some id)
+    (hpn : ∀ q, (sh'.pool q).Nodup)
+    (hpd : ∀ q1 q2 id, q1 ≠ q2 → id ∈ sh'.pool q1 → id ∉ sh'.pool q2)
+    (hheld : ∀ id, t'.priv.held = some id →
+      (∀ (j : Nat) (u : Thread), j ≠ i → cfg.threads[j]? = some u → u.priv.held ≠ some id) ∧ (∀ q, id ∉ sh'.pool q) ∧ id < sh'.next)
+    (hti : TI env cell0 opts0 sh' t') :
+    Inv env cell0 opts0 { sh := sh', threads := cfg.threads.set i t' } := by
+  have others : ∀ (j : Nat) (u : Thread) (id : Nat), j ≠ i → cfg.threads[j]? = some u → u.priv.held = some id →
+      t.priv.held ≠ some id := by
+    intro j u id hji hu hid hti'
+    exact hji (inv.hh j i u t id hu ht hid hti')
+  refine { opts := by simpa [hopts] using inv.opts, ro := fun r hr => by simp [hro r hr, inv.ro r hr], once := honce,
+           hh := ?_, hp := ?_, pn := hpn, pd := hpd, fh := ?_, fp := ?_, thr := ?_ }
+  · intro j k u v id hu hv huid hvid
+    rcases getElem?_set_thread _ _ _ _ _ hu with ⟨rfl, rfl, _⟩ | ⟨hj, hu'⟩
+    · rcases getElem?_set_thread _ _ _ _ _ hv with ⟨rfl, _, _⟩ | ⟨hk, hv'⟩
+      · rfl
+      · exact absurd hvid ((hheld id huid).1 k v hk hv')
+    · rcases getElem?_set_thread _ _ _ _ _ hv with ⟨rfl, rfl, _⟩ | ⟨hk, hv'⟩
+      · exact absurd huid ((hheld id hvid).1 j u hj hu')
+      · exact inv.hh j k u v id hu' hv' huid hvid
+  · intro j u id q hu huid hmem
+    rcases getElem?_set_thread _ _ _ _ _ hu with ⟨rfl, rfl, _⟩ | ⟨hj, hu'⟩
+    · exact (hheld id huid).2.1 q hmem
+    · rcases hpool q id hmem with h | h
+      · exact inv.hp j u id q hu' huid h
+      · exact others j u id hj hu' huid h
+  · intro j u id hu huid
+    rcases getElem?_set_thread _ _ _ _ _ hu with ⟨rfl, rfl, _⟩ | ⟨hj, hu'⟩
+    · exact (hheld id huid).2.2
+    · exact Nat.lt_of_lt_of_le (inv.fh j u id hu' huid) hnext
+  · intro q id hmem
+    rcases hpool q id hmem with h | h
+    · exact Nat.lt_of_lt_of_le (inv.fp q id h) hnext
+    · exact Nat.lt_of_lt_of_le (inv.fh i t id ht h) hnext
+  · intro j u hu
+    rcases getElem?_set_thread _ _ _ _ _ hu with ⟨rfl, rfl, _⟩ | ⟨hj, hu'⟩
+    · exact hti
+    · refine ti_frame env cell0 opts0 cfg.sh sh' u (inv.thr j u hu') hdone ?_
+      intro id hid
+      exact hheap id (inv.fh j u id hu' hid) (others j u id hj hu' hid)
+
+/-- the same when pools, allocation counter and what the thread holds are untouched -/
+theorem inv_update_same (env : Env) (cell0 : Nat → Nat) (opts0 : Nat → Option Nat) (cfg : Cfg) (i : Nat) (t t' : Thread) (sh' : Sh)
+    (ht : cfg.threads[i]? = some t) (inv : Inv env cell0 opts0 cfg)
+    (hopts : sh'.opts = cfg.sh.opts)
+    (hro : ∀ r, env.onceOf r = none → sh'.cell r = cfg.sh.cell r)
+    (honce : ∀ o, OnceOK env sh' o)
+    (hdone : ∀ o, cfg.sh.once o = .done → sh'.once o = .done)
+    (hheap : ∀ id, t.priv.held ≠ some id → sh'.heap id = cfg.sh.heap id)
+    (hnext : sh'.next = cfg.sh.next) (hpool : sh'.pool = cfg.sh.pool) (hheld : t'.priv.held = t.priv.held)
+    (hti : TI env cell0 opts0 sh' t') :
+    Inv env cell0 opts0 { sh := sh', threads := cfg.threads.set i t' } := by
+  refine inv_update env cell0 opts0 cfg i t t' sh' ht inv hopts hro honce hdone (fun id _ h => hheap id h) (by omega)
+    (fun q id h => Or.inl (by simpa [hpool] using h)) (by simpa [hpool] using inv.pn) (by simpa [hpool] using inv.pd) ?_ hti
+  intro id hid
+  rw [hheld] at hid
+  refine ⟨fun j u hj hu huid => hj (inv.hh j i u t id hu ht huid hid), fun q => by simpa [hpool] using inv.hp i t id q ht hid, ?_⟩
+  rw [hnext]; exact inv.fh i t id ht hid
+
+/-! ### the `Once` rows -/
+
+theorem onceOK_congr (env : Env) (sh sh' : Sh) (o : Nat) (hc : sh'.cell = sh.cell) (ho : sh'.once = sh.once)
+    (h : OnceOK env sh o) : OnceOK env sh' o := by
+  unfold OnceOK at *
+  rw [hc, ho]; exact h
+
+theorem closureStep_other (env : Env) (o k : Nat) (cell : Nat → Nat) (r : Nat) (h : r ∉ env.body o) :
+    closureStep env o k cell r = cell r := by
+  unfold closureStep
+  cases hk : (env.body o)[k / 2]? with
+  | none => rfl
+  | some r' =>
+    have : r' ∈ env.body o := List.mem_of_getElem? hk
+    have hne : r ≠ r' := fun e => h (e ▸ this)
+    simp [upd, hne]
+
+theorem closureStep_at (env : Env) (o k : Nat) (cell : Nat → Nat) (r : Nat) (hk : (env.body o)[k / 2]? = some r) (r' : Nat) :
+    closureStep env o k cell r' = if r' = r then (if k % 2 = 0 then env.half r else env.built r) else cell r' := by
+  unfold closureStep
+  simp [hk, upd]
+
+/-- rows of different `Once`s are different rows -/
+theorem body_disjoint (env : Env) (henv : EnvOK env) (o o' r : Nat) (h : r ∈ env.body o) (h' : r ∈ env.body o') : o = o' := by
+  have h1 := henv.1 o r h
+  have h2 := henv.1 o' r h'
+  rw [h1] at h2; exact Option.some.inj h2
+
+/-- a `Once` other than the one whose closure makes a step is not concerned -/
+theorem onceOK_other (env : Env) (henv : EnvOK env) (sh : Sh) (o o' k : Nat) (st : OnceSt) (hne : o' ≠ o)
+    (h : OnceOK env sh o') :
+    OnceOK env { sh with cell := closureStep env o k sh.cell, once := upd sh.once o st } o' := by
+  unfold OnceOK at *
+  simp only [upd, hne, if_false]
+  have hcell : ∀ r, r ∈ env.body o' → closureStep env o k sh.cell r = sh.cell r := fun r hr =>
+    closureStep_other env o k sh.cell r (fun hro => hne (body_disjoint env henv o o' r hro hr).symm)
+  cases hs : sh.once o' with
+  | idle => simp [hs] at h ⊢
+  | running j k' =>
+    simp only [hs] at h ⊢
+    refine ⟨h.1, fun idx r hlt hidx => ?_⟩
+    rw [hcell r (List.mem_of_getElem? hidx)]; exact h.2 idx r hlt hidx
+  | done =>
+    simp only [hs] at h ⊢
+    intro r hr; rw [hcell r hr]; exact h r hr
+
+theorem onceOK_other_once (env : Env) (sh : Sh) (o o' : Nat) (st : OnceSt) (hne : o' ≠ o) (h : OnceOK env sh o') :
+    OnceOK env { sh with once := upd sh.once o st } o' := by
+  unfold OnceOK at *
+  simpa [upd, hne] using h
+
+/-- one step of the closure of `o` by its owner -/
+theorem onceOK_closure_step (env : Env) (henv : EnvOK env) (sh : Sh) (o i k : Nat) (hs : sh.once o = .running i k)
+    (hk : k < closureLen env o) (h : OnceOK env sh o) :
+    OnceOK env { sh with cell := closureStep env o k sh.cell, once := upd sh.once o (.running i (k + 1)) } o := by
+  unfold OnceOK at *
+  simp only [hs] at h
+  simp only [upd_same]
+  have hlen : k / 2 < (env.body o).length := by unfold closureLen at hk; omega
+  obtain ⟨r0, hr0⟩ : ∃ r0, (env.body o)[k / 2]? = some r0 := ⟨_, List.getElem?_eq_getElem hlen⟩
+  refine ⟨by omega, fun idx r hlt hidx => ?_⟩
+  rw [closureStep_at env o k sh.cell r0 hr0 r]
+  by_cases hr : r = r0
+  · subst hr
+    have hidxlt : idx < (env.body o).length := by
+      rcases Nat.lt_or_ge idx (env.body o).length with h' | h'
+      · exact h'
+      · rw [List.getElem?_eq_none h'] at hidx; cases hidx
+    have : idx = k / 2 := ((List.getElem?_inj hidxlt (henv.2.2 o)).mp (by rw [hidx, hr0]))
+    have hodd : k % 2 = 1 := by omega
+    simp [hodd]
+  · simp only [hr, if_false]
+    have : 2 * idx + 1 < k := by
+      rcases Nat.lt_or_ge (2 * idx + 1) k with h' | h'
+      · exact h'
+      · exfalso
+        have hk' : idx = k / 2 := by omega
+        rw [hk', hr0] at hidx
+        exact hr (Option.some.inj hidx).symm
+    exact h.2 idx r this hidx
+
+/-- the owner has executed the whole closure: the `Once` is done -/
+theorem onceOK_closure_end (env : Env) (sh : Sh) (o i k : Nat) (hs : sh.once o = .running i k)
+    (hk : ¬ k < closureLen env o) (h : OnceOK env sh o) :
+    OnceOK env { sh with once := upd sh.once o .done } o := by
+  unfold OnceOK at *
+  simp only [hs] at h
+  simp only [upd_same]
+  intro r hr
+  obtain ⟨idx, hidx, hget⟩ := List.getElem_of_mem hr
+  have : (env.body o)[idx]? = some r := by rw [List.getElem?_eq_getElem hidx, hget]
+  refine h.2 idx r ?_ this
+  unfold closureLen at hk h; omega
+
+/-! ### what the static discipline says about each action -/
+
+theorem wfStep_read {env : Env} {r : Nat} {w w' : WfSt} (h : wfStep env (.read r) w = some w') :
+    w' = w ∧ env.racy r = false ∧ ∀ o, env.onceOf r = some o → o ∈ w.seen := by
+  simp only [wfStep] at h
+  cases hr : env.racy r with
+  | true => simp [hr] at h
+  | false =>
+    simp only [hr] at h
+    cases hon : env.onceOf r with
+    | none => simp [hon] at h; exact ⟨h.symm, rfl, fun o ho => by cases ho⟩
+    | some o =>
+      simp only [hon] at h
+      by_cases hso : w.seen.contains o
+      · simp [hso] at h
+        refine ⟨h.2.symm, rfl, fun o' ho' => ?_⟩
+        cases ho'; exact h.1
+      · simp [hso] at h
+        simp at hso
+        exact absurd h.1 hso
+
+theorem wfStep_onceDo {env : Env} {o : Nat} {w w' : WfSt} (h : wfStep env (.onceDo o) w = some w') :
+    w' = { w with seen := o :: w.seen } := by
+  simp [wfStep] at h; exact h.symm
+
+theorem wfStep_get {env : Env} {q : Nat} {w w' : WfSt} (h : wfStep env (.get q) w = some w') :
+    w.holding = false ∧ w' = { w with holding := true, clean := false } := by
+  simp only [wfStep] at h
+  cases hh : w.holding with
+  | true => simp [hh] at h
+  | false => simp [hh] at h; exact ⟨rfl, h.symm⟩
+
+theorem wfStep_use {env : Env} {vals : List Nat} {w w' : WfSt} (h : wfStep env (.use vals) w = some w') :
+    w.holding = true ∧ w' = w := by
+  simp only [wfStep] at h
+  cases hh : w.holding with
+  | true => simp [hh] at h; exact ⟨rfl, h.symm⟩
+  | false => simp [hh] at h
+
+theorem wfStep_readObj {env : Env} {w w' : WfSt} (h : wfStep env .readObj w = some w') :
+    w.holding = true ∧ w.clean = true ∧ w' = w := by
+  simp only [wfStep] at h
+  cases hh : w.holding with
+  | false => simp [hh] at h
+  | true =>
+    cases hc : w.clean with
+    | false => simp [hh, hc] at h
+    | true => simp [hh, hc] at h; exact ⟨rfl, rfl, h.symm⟩
+
+theorem wfStep_reset {env : Env} {w w' : WfSt} (h : wfStep env .reset w = some w') :
+    w.holding = true ∧ w' = { w with clean := true } := by
+  simp only [wfStep] at h
+  cases hh : w.holding with
+  | true => simp [hh] at h; exact ⟨rfl, h.symm⟩
+  | false => simp [hh] at h
+
+theorem wfStep_put {env : Env} {q : Nat} {w w' : WfSt} (h : wfStep env (.put q) w = some w') :
+    w.holding = true ∧ w' = { w with holding := false, clean := false } := by
+  simp only [wfStep] at h
+  cases hh : w.holding with
+  | true => simp [hh] at h; exact ⟨rfl, h.symm⟩
+  | false => simp [hh] at h
+
+/-! ### every scheduled step keeps the invariant -/
+
+theorem stepThread_none (env : Env) (cfg : Cfg) (i c : Nat) (h : cfg.threads[i]? = none) : stepThread env cfg i c = cfg := by
+  simp [stepThread, h]
+
+theorem stepThread_nil (env : Env) (cfg : Cfg) (i c : Nat) (t : Thread) (h : cfg.threads[i]? = some t) (h' : t.todo = []) :
+    stepThread env cfg i c = cfg := by
+  simp [stepThread, h, h']
+
+theorem stepThread_cons (env : Env) (cfg : Cfg) (i c : Nat) (t : Thread) (a : Act) (rest : List Act)
+    (h : cfg.threads[i]? = some t) (h' : t.todo = a :: rest) :
+    stepThread env cfg i c =
+      { sh := (step env i a c t.priv cfg.sh).2.1,
+        threads := cfg.threads.set i (if (step env i a c t.priv cfg.sh).2.2 then
+            { priv := (step env i a c t.priv cfg.sh).1, done := t.done ++ [a], todo := rest }
+          else { t with priv := (step env i a c t.priv cfg.sh).1 }) } := by
+  simp [stepThread, h, h']
+
+theorem step_onceDo_idle (env : Env) (i o c : Nat) (p : Priv) (sh : Sh) (h : sh.once o = .idle) :
+    step env i (.onceDo o) c p sh = (p, { sh with once := upd sh.once o (.running i 0) }, false) := by
+  simp [step, h]
+
+theorem step_onceDo_own_step (env : Env) (i o c k : Nat) (p : Priv) (sh : Sh) (h : sh.once o = .running i k)
+    (hk : k < closureLen env o) :
+    step env i (.onceDo o) c p sh =
+      (p, { sh with cell := closureStep env o k sh.cell, once := upd sh.once o (.running i (k + 1)) }, false) := by
+  simp [step, h, hk]
+
+theorem step_onceDo_own_end (env : Env) (i o c k : Nat) (p : Priv) (sh : Sh) (h : sh.once o = .running i k)
+    (hk : ¬ k < closureLen env o) :
+    step env i (.onceDo o) c p sh = (p, { sh with once := upd sh.once o .done }, false) := by
+  simp [step, h, hk]
+
+theorem step_onceDo_blocked (env : Env) (i j o c k : Nat) (p : Priv) (sh : Sh) (h : sh.once o = .running j k) (hj : j ≠ i) :
+    step env i (.onceDo o) c p sh = (p, sh, false) := by
+  simp [step, h, hj]
+
+theorem step_onceDo_done (env : Env) (i o c : Nat) (p : Priv) (sh : Sh) (h : sh.once o = .done) :
+    step env i (.onceDo o) c p sh = (p, sh, true) := by
+  simp [step, h]
+
+theorem held_some_of {t : Thread} {w : WfSt} (h : t.priv.held.isSome = w.holding) (hw : w.holding = true) :
+    ∃ id, t.priv.held = some id := by
+  cases hh : t.priv.held with
+  | none => simp [hh, hw] at h
+  | some id => exact ⟨id, rfl⟩
+
+theorem held_none_of {t : Thread} {w : WfSt} (h : t.priv.held.isSome = w.holding) (hw : w.holding = false) :
+    t.priv.held = none := by
+  cases hh : t.priv.held with
+  | none => rfl
+  | some id => simp [hh, hw] at h
+
+theorem step_use_held (env : Env) (i c id : Nat) (vals : List Nat) (p : Priv) (sh : Sh) (h : p.held = some id) :
+    step env i (.use vals) c p sh =
+      ({ p with out := p.out ++ (overlay vals (sh.heap id)).take vals.length },
+       { sh with heap := upd sh.heap id (overlay vals (sh.heap id)) }, true) := by
+  simp [step, h]
+
+theorem step_readObj_held (env : Env) (i c id : Nat) (p : Priv) (sh : Sh) (h : p.held = some id) :
+    step env i .readObj c p sh = ({ p with out := p.out ++ sh.heap id }, sh, true) := by
+  simp [step, h]
+
+theorem step_reset_held (env : Env) (i c id : Nat) (p : Priv) (sh : Sh) (h : p.held = some id) :
+    step env i .reset c p sh = (p, { sh with heap := upd sh.heap id [] }, true) := by
+  simp [step, h]
+
+theorem step_put_held (env : Env) (i c id q : Nat) (p : Priv) (sh : Sh) (h : p.held = some id) :
+    step env i (.put q) c p sh =
+      ({ p with held := none, lastPut := some id }, { sh with pool := upd sh.pool q (id :: sh.pool q) }, true) := by
+  simp [step, h]
+
+theorem step_get_fresh (env : Env) (i c q : Nat) (p : Priv) (sh : Sh) (h : p.held = none) (hc : c = 0 ∨ sh.pool q = []) :
+    step env i (.get q) c p sh =
+      ({ p with held := some sh.next }, { sh with heap := upd sh.heap sh.next [], next := sh.next + 1 }, true) := by
+  simp [step, h, hc]
+
+theorem step_get_pooled (env : Env) (i c q : Nat) (p : Priv) (sh : Sh) (h : p.held = none) (hc : ¬ (c = 0 ∨ sh.pool q = [])) :
+    step env i (.get q) c p sh =
+      ({ p with held := some ((sh.pool q).getD ((c - 1) % (sh.pool q).length) 0) },
+       { sh with pool := upd sh.pool q (removeNth (sh.pool q) ((c - 1) % (sh.pool q).length)) }, true) := by
+  simp [step, h, hc]
+
+theorem inv_step (env : Env) (henv : EnvOK env) (cell0 : Nat → Nat) (opts0 : Nat → Option Nat) (cfg : Cfg) (i c : Nat)
+    (inv : Inv env cell0 opts0 cfg) : Inv env cell0 opts0 (stepThread env cfg i c) := by
+  cases ht : cfg.threads[i]? with
+  | none => rw [stepThread_none env cfg i c ht]; exact inv
   | some t =>
-    simp only
     cases htodo : t.todo with
-    | nil => exact inv
+    | nil => rw [stepThread_nil env cfg i c t ht htodo]; exact inv
     | cons a rest =>
-      simp only
-      have htm : t ∈ cfg.threads := List.mem_of_getElem? hget
-      obtain ⟨hpok, hpriv⟩ := inv.thr t htm
-      obtain ⟨h1, h2, h3, h4, h5⟩ := step_spec sh0 cfg.sh t.priv a c inv.shok inv.rel hpok
-      refine ⟨h2, h3, ?_⟩
-      intro u hu
-      rcases List.mem_or_eq_of_mem_set hu with hu | rfl
-      · obtain ⟨upok, upriv⟩ := inv.thr u hu
-        exact ⟨privOK_mono upok h4, upriv⟩
-      · refine ⟨h5, ?_⟩
-        simp only [soloPriv, List.foldl_append, List.foldl_cons, List.foldl_nil]
-        rw [h1, hpriv]; rfl
+      rw [stepThread_cons env cfg i c t a rest ht htodo]
+      obtain ⟨w, hw, hcont, hout, hheld, hsolo, hclean, hseen⟩ := inv.thr i t ht
+      rw [htodo] at hcont
+      simp only [wfRun] at hcont
+      cases hws : wfStep env a w with
+      | none => simp [hws] at hcont
+      | some w' =>
+        simp only [hws] at hcont
+        have hd' : wfRun env (t.done ++ [a]) initWf = some w' := by
+          rw [wfRun_append, hw]; simp [wfRun, hws]
+        have hsame : ∀ o, OnceOK env cfg.sh o := inv.once
+        cases a with
+        | read r =>
+          simp only [step, if_true]
+          refine inv_update_same env cell0 opts0 cfg i t _ cfg.sh ht inv rfl (fun _ _ => rfl) hsame (fun _ h => h)
+            (fun _ _ => rfl) rfl rfl rfl ?_
+          obtain ⟨hw', _, hsn⟩ := wfStep_read hws
+          have hval : cfg.sh.cell r = (match env.onceOf r with | some _ => env.built r | none => cell0 r) := by
+            cases hon : env.onceOf r with
+            | none => simp [inv.ro r hon]
+            | some o =>
+              have hdone := hseen o (hsn o hon)
+              have := inv.once o
+              unfold OnceOK at this
+              simp only [hdone] at this
+              simp [this r (henv.2.1 o r hon)]
+          subst hw'
+          refine ⟨w', hd', hcont, ?_, hheld, ?_, ?_, hseen⟩
+          · simp only [soloRun_snoc, soloStep, hout, hval]; rfl
+          · simp only [soloRun_snoc, soloStep]; exact hsolo
+          · simp only [soloRun_snoc, soloStep]; exact hclean
+        | write r v => simp [wfStep] at hws
+        | putAgain q => simp [wfStep] at hws
+        | optWrite o v => simp [wfStep] at hws
+        | loc v =>
+          simp only [step, if_true]
+          refine inv_update_same env cell0 opts0 cfg i t _ cfg.sh ht inv rfl (fun _ _ => rfl) hsame (fun _ h => h)
+            (fun _ _ => rfl) rfl rfl rfl ?_
+          have hw' : w' = w := by simp [wfStep] at hws; exact hws.symm
+          subst hw'
+          refine ⟨w', hd', hcont, ?_, hheld, ?_, ?_, hseen⟩
+          · simp only [soloRun_snoc, soloStep, hout]
+          · simp only [soloRun_snoc, soloStep]; exact hsolo
+          · simp only [soloRun_snoc, soloStep]; exact hclean
+        | optRead o =>
+          simp only [step, if_true]
+          refine inv_update_same env cell0 opts0 cfg i t _ cfg.sh ht inv rfl (fun _ _ => rfl) hsame (fun _ h => h)
+            (fun _ _ => rfl) rfl rfl rfl ?_
+          have hw' : w' = w := by simp [wfStep] at hws; exact hws.symm
+          subst hw'
+          refine ⟨w', hd', hcont, ?_, hheld, ?_, ?_, hseen⟩
+          · simp only [soloRun_snoc, soloStep, hout, inv.opts]
+          · simp only [soloRun_snoc, soloStep]; exact hsolo
+          · simp only [soloRun_snoc, soloStep]; exact hclean
+        | onceDo o =>
+          have hw' := wfStep_onceDo hws
+          have heta : ({ t with priv := t.priv } : Thread) = t := by cases t; rfl
+          have hti0 : TI env cell0 opts0 cfg.sh t := inv.thr i t ht
+          cases hs : cfg.sh.once o with
+          | idle =>
+            rw [step_onceDo_idle env i o c t.priv cfg.sh hs]
+            simp only [Bool.false_eq_true, if_false]
+            have hdone : ∀ o', cfg.sh.once o' = .done → upd cfg.sh.once o (.running i 0) o' = .done := by
+              intro o' ho'
+              by_cases he : o' = o
+              · subst he; rw [hs] at ho'; cases ho'
+              · rw [upd_other _ _ _ _ he]; exact ho'
+            refine inv_update_same env cell0 opts0 cfg i t _ _ ht inv rfl (fun _ _ => rfl) ?_ hdone
+              (fun _ _ => rfl) rfl rfl rfl ?_
+            · intro o'
+              by_cases he : o' = o
+              · subst he; unfold OnceOK; simp
+              · exact onceOK_other_once env cfg.sh o o' _ he (inv.once o')
+            · rw [heta]; exact ti_frame env cell0 opts0 cfg.sh _ t hti0 hdone (fun _ _ => rfl)
+          | running j k =>
+            by_cases hji : j = i
+            · subst hji
+              by_cases hk : k < closureLen env o
+              · rw [step_onceDo_own_step env j o c k t.priv cfg.sh hs hk]
+                simp only [Bool.false_eq_true, if_false]
+                have hdone : ∀ o', cfg.sh.once o' = .done → upd cfg.sh.once o (.running j (k + 1)) o' = .done := by
+                  intro o' ho'
+                  by_cases he : o' = o
+                  · subst he; rw [hs] at ho'; cases ho'
+                  · rw [upd_other _ _ _ _ he]; exact ho'
+                refine inv_update_same env cell0 opts0 cfg j t _ _ ht inv rfl ?_ ?_ hdone
+                  (fun _ _ => rfl) rfl rfl rfl ?_
+                · intro r hr
+                  refine closureStep_other env o k cfg.sh.cell r (fun hm => ?_)
+                  rw [henv.1 o r hm] at hr; cases hr
+                · intro o'
+                  by_cases he : o' = o
+                  · subst he; exact onceOK_closure_step env henv cfg.sh o' j k hs hk (inv.once o')
+                  · exact onceOK_other env henv cfg.sh o o' k _ he (inv.once o')
+                · rw [heta]; exact ti_frame env cell0 opts0 cfg.sh _ t hti0 hdone (fun _ _ => rfl)
+              · rw [step_onceDo_own_end env j o c k t.priv cfg.sh hs hk]
+                simp only [Bool.false_eq_true, if_false]
+                have hdone : ∀ o', cfg.sh.once o' = .done → upd cfg.sh.once o .done o' = .done := by
+                  intro o' ho'
+                  by_cases he : o' = o
+                  · subst he; simp
+                  · rw [upd_other _ _ _ _ he]; exact ho'
+                refine inv_update_same env cell0 opts0 cfg j t _ _ ht inv rfl (fun _ _ => rfl) ?_ hdone
+                  (fun _ _ => rfl) rfl rfl rfl ?_
+                · intro o'
+                  by_cases he : o' = o
+                  · subst he; exact onceOK_closure_end env cfg.sh o' j k hs hk (inv.once o')
+                  · exact onceOK_other_once env cfg.sh o o' _ he (inv.once o')
+                · rw [heta]; exact ti_frame env cell0 opts0 cfg.sh _ t hti0 hdone (fun _ _ => rfl)
+            · rw [step_onceDo_blocked env i j o c k t.priv cfg.sh hs hji]
+              simp only [Bool.false_eq_true, if_false]
+              refine inv_update_same env cell0 opts0 cfg i t _ cfg.sh ht inv rfl (fun _ _ => rfl) hsame (fun _ h => h)
+                (fun _ _ => rfl) rfl rfl rfl ?_
+              rw [heta]; exact hti0
+          | done =>
+            rw [step_onceDo_done env i o c t.priv cfg.sh hs]
+            simp only [if_true]
+            refine inv_update_same env cell0 opts0 cfg i t _ cfg.sh ht inv rfl (fun _ _ => rfl) hsame (fun _ h => h)
+              (fun _ _ => rfl) rfl rfl rfl ?_
+            subst hw'
+            refine ⟨_, hd', hcont, ?_, hheld, ?_, ?_, ?_⟩
+            · simp only [soloRun_snoc, soloStep, hout]
+            · simp only [soloRun_snoc, soloStep]; exact hsolo
+            · simp only [soloRun_snoc, soloStep]; exact hclean
+            · intro o' ho'
+              rcases List.mem_cons.mp ho' with h | h
+              · rw [h]; exact hs
+              · exact hseen o' h
+        | use vals =>
+          obtain ⟨hhold, hw'⟩ := wfStep_use hws
+          subst hw'
+          obtain ⟨id, hid⟩ := held_some_of hheld hhold
+          rw [step_use_held env i c id vals t.priv cfg.sh hid]
+          simp only [if_true]
+          refine inv_update_same env cell0 opts0 cfg i t _ _ ht inv rfl (fun _ _ => rfl) hsame (fun _ h => h)
+            ?_ rfl rfl rfl ?_
+          · intro id' hne
+            exact upd_other _ _ _ _ (fun e => hne (e ▸ hid))
+          · refine ⟨_, hd', hcont, ?_, hheld, ?_, ?_, hseen⟩
+            · simp only [soloRun_snoc, soloStep, hsolo, hhold, if_true, overlay_take, hout]
+            · simp only [soloRun_snoc, soloStep, hsolo, hhold, if_true]
+            · intro hc
+              obtain ⟨cc, hk, hh⟩ := hclean hc
+              refine ⟨overlay vals cc, ?_, ?_⟩
+              · simp only [soloRun_snoc, soloStep, hsolo, hhold, if_true, hk, Option.map]
+              · intro id' hid'
+                have : id' = id := by rw [hid] at hid'; exact (Option.some.inj hid').symm
+                subst this
+                simp [hh id' hid]
+        | readObj =>
+          obtain ⟨hhold, hcl, hw'⟩ := wfStep_readObj hws
+          subst hw'
+          obtain ⟨id, hid⟩ := held_some_of hheld hhold
+          rw [step_readObj_held env i c id t.priv cfg.sh hid]
+          simp only [if_true]
+          refine inv_update_same env cell0 opts0 cfg i t _ cfg.sh ht inv rfl (fun _ _ => rfl) hsame (fun _ h => h)
+            (fun _ _ => rfl) rfl rfl rfl ?_
+          obtain ⟨cc, hk, hh⟩ := hclean hcl
+          refine ⟨_, hd', hcont, ?_, hheld, ?_, ?_, hseen⟩
+          · simp only [soloRun_snoc, soloStep, hsolo, hhold, if_true, hk, Option.getD, hout, hh id hid]
+          · simp only [soloRun_snoc, soloStep, hsolo, hhold, if_true]
+          · intro _
+            exact ⟨cc, by simp only [soloRun_snoc, soloStep, hsolo, hhold, if_true, hk], hh⟩
+        | reset =>
+          obtain ⟨hhold, hw'⟩ := wfStep_reset hws
+          subst hw'
+          obtain ⟨id, hid⟩ := held_some_of hheld hhold
+          rw [step_reset_held env i c id t.priv cfg.sh hid]
+          simp only [if_true]
+          refine inv_update_same env cell0 opts0 cfg i t _ _ ht inv rfl (fun _ _ => rfl) hsame (fun _ h => h)
+            ?_ rfl rfl rfl ?_
+          · intro id' hne
+            exact upd_other _ _ _ _ (fun e => hne (e ▸ hid))
+          · refine ⟨_, hd', hcont, ?_, hheld, ?_, ?_, hseen⟩
+            · simp only [soloRun_snoc, soloStep, hsolo, hhold, if_true, hout]
+            · simp only [soloRun_snoc, soloStep, hsolo, hhold, if_true]
+            · intro _
+              refine ⟨[], by simp only [soloRun_snoc, soloStep, hsolo, hhold, if_true], ?_⟩
+              intro id' hid'
+              have : id' = id := by rw [hid] at hid'; exact (Option.some.inj hid').symm
+              subst this
+              simp
+        | put q =>
+          obtain ⟨hhold, hw'⟩ := wfStep_put hws
+          subst hw'
+          obtain ⟨id, hid⟩ := held_some_of hheld hhold
+          rw [step_put_held env i c id q t.priv cfg.sh hid]
+          simp only [if_true]
+          have hnot : ∀ q', id ∉ cfg.sh.pool q' := fun q' => inv.hp i t id q' ht hid
+          refine inv_update env cell0 opts0 cfg i t _ _ ht inv rfl (fun _ _ => rfl) hsame (fun _ h => h)
+            (fun _ _ _ => rfl) (Nat.le_refl _) ?_ ?_ ?_ ?_ ?_
+          · intro q' id' hmem
+            by_cases hq : q' = q
+            · subst hq
+              simp only [upd_same] at hmem
+              rcases List.mem_cons.mp hmem with h | h
+              · right; rw [h]; exact hid
+              · left; exact h
+            · left; simpa [upd_other _ _ _ _ hq] using hmem
+          · intro q'
+            by_cases hq : q' = q
+            · subst hq
+              simp only [upd_same]
+              exact List.nodup_cons.mpr ⟨hnot q', inv.pn q'⟩
+            · simpa [upd_other _ _ _ _ hq] using inv.pn q'
+          · intro q1 q2 id' hne h1 h2
+            by_cases hq1 : q1 = q
+            · subst hq1
+              have hq2 : q2 ≠ q1 := fun e => hne e.symm
+              simp only [upd_same] at h1
+              simp only [upd_other _ _ _ _ hq2] at h2
+              rcases List.mem_cons.mp h1 with h | h
+              · exact hnot q2 (h ▸ h2)
+              · exact inv.pd q1 q2 id' hne h h2
+            · simp only [upd_other _ _ _ _ hq1] at h1
+              by_cases hq2 : q2 = q
+              · subst hq2
+                simp only [upd_same] at h2
+                rcases List.mem_cons.mp h2 with h | h
+                · exact hnot q1 (h ▸ h1)
+                · exact inv.pd q1 q2 id' hne h1 h
+              · simp only [upd_other _ _ _ _ hq2] at h2
+                exact inv.pd q1 q2 id' hne h1 h2
+          · intro id' hid'
+            simp at hid'
+          · refine ⟨_, hd', hcont, ?_, ?_, ?_, ?_, hseen⟩
+            · simp only [soloRun_snoc, soloStep, hsolo, hhold, if_true, hout]
+            · simp
+            · simp only [soloRun_snoc, soloStep, hsolo, hhold, if_true]
+            · intro hc; simp at hc
+        | get q =>
+          obtain ⟨hhold, hw'⟩ := wfStep_get hws
+          subst hw'
+          have hnone := held_none_of hheld hhold
+          by_cases hc : c = 0 ∨ cfg.sh.pool q = []
+          · rw [step_get_fresh env i c q t.priv cfg.sh hnone hc]
+            simp only [if_true]
+            refine inv_update env cell0 opts0 cfg i t _ _ ht inv rfl (fun _ _ => rfl) hsame (fun _ h => h)
+              ?_ (Nat.le_succ _) (fun _ _ h => Or.inl h) inv.pn inv.pd ?_ ?_
+            · intro id' hlt _
+              exact upd_other _ _ _ _ (Nat.ne_of_lt hlt)
+            · intro id' hid'
+              have hid'' : id' = cfg.sh.next := by simpa using hid'.symm
+              subst hid''
+              refine ⟨fun j u _ hu huid => ?_, fun q' hm => ?_, Nat.lt_succ_self _⟩
+              · exact Nat.lt_irrefl _ (inv.fh j u _ hu huid)
+              · exact Nat.lt_irrefl _ (inv.fp q' _ hm)
+            · refine ⟨_, hd', hcont, ?_, ?_, ?_, ?_, hseen⟩
+              · simp only [soloRun_snoc, soloStep, hsolo, hhold, Bool.false_eq_true, if_false, hout]
+              · simp
+              · simp only [soloRun_snoc, soloStep, hsolo, hhold, Bool.false_eq_true, if_false]
+              · intro hcl; simp at hcl
+          · rw [step_get_pooled env i c q t.priv cfg.sh hnone hc]
+            simp only [if_true]
+            have hne : cfg.sh.pool q ≠ [] := fun e => hc (Or.inr e)
+            have hlen : (c - 1) % (cfg.sh.pool q).length < (cfg.sh.pool q).length :=
+              Nat.mod_lt _ (List.length_pos_iff.mpr hne)
+            have hmemq := getD_mem_of_lt hlen
+            refine inv_update env cell0 opts0 cfg i t _ _ ht inv rfl (fun _ _ => rfl) hsame (fun _ h => h)
+              (fun _ _ _ => rfl) (Nat.le_refl _) ?_ ?_ ?_ ?_ ?_
+            · intro q' id' hmem
+              by_cases hq : q' = q
+              · subst hq
+                simp only [upd_same] at hmem
+                exact Or.inl (removeNth_mem hmem)
+              · left; simpa [upd_other _ _ _ _ hq] using hmem
+            · intro q'
+              by_cases hq : q' = q
+              · subst hq
+                simp only [upd_same]
+                exact removeNth_nodup _ (inv.pn q')
+              · simpa [upd_other _ _ _ _ hq] using inv.pn q'
+            · intro q1 q2 id' hne' h1 h2
+              have h1' : id' ∈ cfg.sh.pool q1 := by
+                by_cases hq1 : q1 = q
+                · subst hq1; simp only [upd_same] at h1; exact removeNth_mem h1
+                · simpa [upd_other _ _ _ _ hq1] using h1
+              have h2' : id' ∈ cfg.sh.pool q2 := by
+                by_cases hq2 : q2 = q
+                · subst hq2; simp only [upd_same] at h2; exact removeNth_mem h2
+                · simpa [upd_other _ _ _ _ hq2] using h2
+              exact inv.pd q1 q2 id' hne' h1' h2'
+            · intro id' hid'
+              have hid'' : id' = (cfg.sh.pool q).getD ((c - 1) % (cfg.sh.pool q).length) 0 := by simpa using hid'.symm
+              subst hid''
+              refine ⟨fun j u _ hu huid => inv.hp j u _ q hu huid hmemq, fun q' hm => ?_, inv.fp q _ hmemq⟩
+              by_cases hq : q' = q
+              · subst hq
+                simp only [upd_same] at hm
+                exact removeNth_not_mem _ (inv.pn q') hlen hm
+              · simp only [upd_other _ _ _ _ hq] at hm
+                exact inv.pd q q' _ (fun e => hq e.symm) hmemq hm
+            · refine ⟨_, hd', hcont, ?_, ?_, ?_, ?_, hseen⟩
+              · simp only [soloRun_snoc, soloStep, hsolo, hhold, Bool.false_eq_true, if_false, hout]
+              · simp
+              · simp only [soloRun_snoc, soloStep, hsolo, hhold, Bool.false_eq_true, if_false]
+              · intro hcl; simp at hcl
 
-theorem cfgInv_exec (sh0 : Sh) (sched : List (Nat × Nat)) : ∀ cfg, CfgInv sh0 cfg → CfgInv sh0 (exec cfg sched) := by
+theorem inv_exec (env : Env) (henv : EnvOK env) (cell0 : Nat → Nat) (opts0 : Nat → Option Nat) (sched : List (Nat × Nat)) :
+    ∀ cfg, Inv env cell0 opts0 cfg → Inv env cell0 opts0 (exec env cfg sched) := by
   induction sched with
   | nil => intro cfg h; exact h
-  | cons e es ih => intro cfg h; exact ih _ (cfgInv_step sh0 cfg e.1 e.2 h)
+  | cons e rest ih => intro cfg h; exact ih _ (inv_step env henv cell0 opts0 cfg e.1 e.2 h)
 
-/-- the program of every thread (done ++ todo) never changes -/
+/-! ### a thread never changes its program -/
+
 def progsOf (cfg : Cfg) : List (List Act) := cfg.threads.map (fun t => t.done ++ t.todo)
 
-theorem progsOf_step (cfg : Cfg) (i c : Nat) : progsOf (stepThread cfg i c) = progsOf cfg := by
-  unfold stepThread
-  cases hget : cfg.threads[i]? with
-  | none => rfl
+theorem progsOf_step (env : Env) (cfg : Cfg) (i c : Nat) : progsOf (stepThread env cfg i c) = progsOf cfg := by
+  cases ht : cfg.threads[i]? with
+  | none => rw [stepThread_none env cfg i c ht]
   | some t =>
-    simp only
     cases htodo : t.todo with
-    | nil => rfl
+    | nil => rw [stepThread_nil env cfg i c t ht htodo]
     | cons a rest =>
-      simp only [progsOf, List.map_set]
+      rw [stepThread_cons env cfg i c t a rest ht htodo]
+      unfold progsOf
       have hi : i < cfg.threads.length := by
         rcases Nat.lt_or_ge i cfg.threads.length with h | h
         · exact h
-        · rw [List.getElem?_eq_none h] at hget; cases hget
-      apply List.ext_getElem
-      · simp
-      · intro n h1 h2
-        by_cases hn : i = n
-        · subst hn
-          simp only [List.getElem_set_self, List.getElem_map]
-          have : cfg.threads[i] = t := by
-            have := List.getElem?_eq_getElem hi
-            rw [this] at hget; exact Option.some.inj hget
-          rw [this, htodo]; simp
-        · simp [List.getElem_set_ne hn]
+        · rw [List.getElem?_eq_none h] at ht; cases ht
+      apply List.ext_getElem?
+      intro j
+      simp only [List.getElem?_map, List.getElem?_set]
+      by_cases hij : i = j
+      · subst hij
+        simp only [hi, if_true, ht, Option.map]
+        by_cases hb : (step env i a c t.priv cfg.sh).2.2 = true
+        · simp [hb, htodo]
+        · simp [hb]
+      · simp [hij]
 
-theorem progsOf_exec (sched : List (Nat × Nat)) : ∀ cfg, progsOf (exec cfg sched) = progsOf cfg := by
+theorem progsOf_exec (env : Env) (sched : List (Nat × Nat)) : ∀ cfg, progsOf (exec env cfg sched) = progsOf cfg := by
   induction sched with
   | nil => intro cfg; rfl
-  | cons e es ih => intro cfg; exact (ih _).trans (progsOf_step cfg e.1 e.2)
+  | cons e rest ih => intro cfg; simp only [exec, List.foldl] at *; rw [ih, progsOf_step]
 
 theorem progsOf_init (progs : List (List Act)) (sh0 : Sh) : progsOf (initCfg progs sh0) = progs := by
-  simp [progsOf, initCfg, Function.comp_def]
+  simp [progsOf, initCfg, List.map_map, Function.comp_def]
 
-/-- **Non-interference, pointwise.** Under every schedule, every thread's private state is exactly what its own
-actions so far produce when the operation runs alone — whatever the other threads did in between. -/
-theorem priv_eq_solo (progs : List (List Act)) (sh0 : Sh) (h0 : ShOK sh0) (sched : List (Nat × Nat)) :
-    ∀ t ∈ (exec (initCfg progs sh0) sched).threads, t.priv = soloPriv sh0.opts t.done :=
-  fun t ht => ((cfgInv_exec sh0 sched _ (cfgInv_init progs sh0 h0)).thr t ht).2
-
-/-- a thread that has finished, in any interleaving, ends in the state `soloPriv` of its whole program -/
-theorem finished_eq_solo (progs : List (List Act)) (sh0 : Sh) (h0 : ShOK sh0) (sched : List (Nat × Nat)) (i : Nat)
-    (t : Thread) (prog : List Act) (ht : (exec (initCfg progs sh0) sched).threads[i]? = some t)
-    (hp : progs[i]? = some prog) (hfin : t.todo = []) : t.priv = soloPriv sh0.opts prog := by
-  have h1 := priv_eq_solo progs sh0 h0 sched t (List.mem_of_getElem? ht)
-  have h2 : progsOf (exec (initCfg progs sh0) sched) = progs := (progsOf_exec sched _).trans (progsOf_init progs sh0)
-  have h3 : (progsOf (exec (initCfg progs sh0) sched))[i]? = some (t.done ++ t.todo) := by
+/-- a finished thread has executed exactly its program -/
+theorem finished_done (env : Env) (progs : List (List Act)) (sh0 : Sh) (sched : List (Nat × Nat)) (i : Nat) (t : Thread)
+    (prog : List Act) (ht : (exec env (initCfg progs sh0) sched).threads[i]? = some t) (hp : progs[i]? = some prog)
+    (hfin : t.todo = []) : t.done = prog := by
+  have h := progsOf_exec env sched (initCfg progs sh0)
+  rw [progsOf_init] at h
+  have h2 : (progsOf (exec env (initCfg progs sh0) sched))[i]? = some (t.done ++ t.todo) := by
     simp [progsOf, List.getElem?_map, ht]
-  rw [h2, hp, hfin, List.append_nil] at h3
-  rw [h1, Option.some.inj h3]
+  rw [h, hp, hfin] at h2
+  simpa using (Option.some.inj h2).symm
 
-end Fit.Shared
+/-! ### the operation alone really runs to its end: `soloRun` is what `exec` does with a single thread -/
 
-namespace Fit.Shared
+def headCost (env : Env) (sh : Sh) : Act → Nat
+  | .onceDo o => match sh.once o with
+    | .idle => closureLen env o + 3
+    | .running _ k => closureLen env o + 2 - k
+    | .done => 1
+  | _ => 1
 
-theorem single_exec (cs : List Nat) : ∀ (sh : Sh) (t0 : Thread),
-    ∃ sh' p', exec { sh := sh, threads := [t0] } (cs.map (fun c => (0, c))) =
-      { sh := sh', threads := [{ priv := p', done := t0.done ++ t0.todo.take cs.length, todo := t0.todo.drop cs.length }] } := by
+/-- scheduled steps still needed by a thread that runs alone -/
+def mu (env : Env) (sh : Sh) : List Act → Nat
+  | [] => 0
+  | a :: rest => headCost env sh a + (rest.map (actCost env)).sum
+
+theorem headCost_le (env : Env) (sh : Sh) (a : Act) : headCost env sh a ≤ actCost env a := by
+  cases a <;> simp [headCost, actCost]
+  rename_i o
+  cases sh.once o <;> simp <;> omega
+
+theorem headCost_pos (env : Env) (sh : Sh) (a : Act) (h : ∀ o j k, sh.once o = .running j k → k ≤ closureLen env o) :
+    0 < headCost env sh a := by
+  cases a <;> simp [headCost]
+  rename_i o
+  cases hs : sh.once o with
+  | idle => simp
+  | running j k => have := h o j k hs; simp; omega
+  | done => simp
+
+theorem mu_le (env : Env) (sh : Sh) (l : List Act) : mu env sh l ≤ soloFuel env l := by
+  cases l with
+  | nil => simp [mu, soloFuel]
+  | cons a rest => simp only [mu, soloFuel, List.map_cons, List.sum_cons]; have := headCost_le env sh a; omega
+
+theorem step_popped (env : Env) (i : Nat) (a : Act) (c : Nat) (p : Priv) (sh : Sh) (h : ∀ o, a ≠ .onceDo o) :
+    (step env i a c p sh).2.2 = true := by
+  cases a with
+  | onceDo o => exact absurd rfl (h o)
+  | get q => simp only [step]; split <;> (try split) <;> rfl
+  | use vals => simp only [step]; split <;> rfl
+  | readObj => simp only [step]; split <;> rfl
+  | reset => simp only [step]; split <;> rfl
+  | put q => simp only [step]; split <;> rfl
+  | putAgain q => simp only [step]; split <;> rfl
+  | _ => rfl
+
+theorem step_once_eq (env : Env) (i : Nat) (a : Act) (c : Nat) (p : Priv) (sh : Sh) (h : ∀ o, a ≠ .onceDo o) :
+    (step env i a c p sh).2.1.once = sh.once := by
+  cases a with
+  | onceDo o => exact absurd rfl (h o)
+  | get q => simp only [step]; split <;> (try split) <;> rfl
+  | use vals => simp only [step]; split <;> rfl
+  | readObj => simp only [step]; split <;> rfl
+  | reset => simp only [step]; split <;> rfl
+  | put q => simp only [step]; split <;> rfl
+  | putAgain q => simp only [step]; split <;> rfl
+  | _ => rfl
+
+/-- every `Once` closure in flight is run by thread 0 (single-thread configurations) -/
+def SoloOwn (sh : Sh) : Prop := ∀ o j k, sh.once o = .running j k → j = 0
+
+theorem solo_step (env : Env) (henv : EnvOK env) (cell0 : Nat → Nat) (opts0 : Nat → Option Nat) (cfg : Cfg) (t : Thread) (c : Nat)
+    (hthr : cfg.threads = [t]) (inv : Inv env cell0 opts0 cfg) (hown : SoloOwn cfg.sh) (hne : t.todo ≠ []) :
+    ∃ t', (stepThread env cfg 0 c).threads = [t'] ∧ SoloOwn (stepThread env cfg 0 c).sh ∧
+      mu env (stepThread env cfg 0 c).sh t'.todo < mu env cfg.sh t.todo := by
+  have ht : cfg.threads[0]? = some t := by simp [hthr]
+  have hk : ∀ o j k, cfg.sh.once o = .running j k → k ≤ closureLen env o := by
+    intro o j k hs
+    have := inv.once o
+    unfold OnceOK at this
+    simp only [hs] at this
+    exact this.1
+  cases htodo : t.todo with
+  | nil => exact absurd htodo hne
+  | cons a rest =>
+    rw [stepThread_cons env cfg 0 c t a rest ht htodo, hthr]
+    simp only [List.set_cons_zero]
+    -- popped actions: the rest costs at most its static bound
+    have popped : ∀ sh', (step env 0 a c t.priv cfg.sh).2.2 = true → headCost env cfg.sh a ≥ 1 →
+        mu env sh' rest < mu env cfg.sh (a :: rest) := by
+      intro sh' _ hpos
+      have := mu_le env sh' rest
+      simp only [mu, soloFuel] at *
+      omega
+    have hpos := headCost_pos env cfg.sh a hk
+    have other : ∀ a', a' = a → (∀ o, a' ≠ .onceDo o) →
+        ∃ t', [if (step env 0 a c t.priv cfg.sh).2.2 = true then
+                ({ priv := (step env 0 a c t.priv cfg.sh).1, done := t.done ++ [a], todo := rest } : Thread)
+              else { t with priv := (step env 0 a c t.priv cfg.sh).1 }] = [t'] ∧
+          SoloOwn (step env 0 a c t.priv cfg.sh).2.1 ∧
+          mu env (step env 0 a c t.priv cfg.sh).2.1 t'.todo < mu env cfg.sh (a :: rest) := by
+      intro a' ha' hno
+      subst ha'
+      have hp := step_popped env 0 a' c t.priv cfg.sh hno
+      refine ⟨_, rfl, ?_, ?_⟩
+      · unfold SoloOwn; rw [step_once_eq env 0 a' c t.priv cfg.sh hno]; exact hown
+      · simp only [hp, if_true]; exact popped _ hp hpos
+    cases a with
+    | onceDo o =>
+      cases hs : cfg.sh.once o with
+      | idle =>
+        rw [step_onceDo_idle env 0 o c t.priv cfg.sh hs]
+        refine ⟨_, rfl, ?_, ?_⟩
+        · intro o' j k h'
+          by_cases he : o' = o
+          · subst he; simp at h'; exact h'.1.symm
+          · simp only [upd_other _ _ _ _ he] at h'; exact hown o' j k h'
+        · simp [htodo, mu, headCost, hs]
+      | running j k =>
+        have hj : j = 0 := hown o j k hs
+        subst hj
+        have hkl := hk o 0 k hs
+        by_cases hlt : k < closureLen env o
+        · rw [step_onceDo_own_step env 0 o c k t.priv cfg.sh hs hlt]
+          refine ⟨_, rfl, ?_, ?_⟩
+          · intro o' j k' h'
+            by_cases he : o' = o
+            · subst he; simp at h'; exact h'.1.symm
+            · simp only [upd_other _ _ _ _ he] at h'; exact hown o' j k' h'
+          · simp [htodo, mu, headCost, hs]; omega
+        · rw [step_onceDo_own_end env 0 o c k t.priv cfg.sh hs hlt]
+          refine ⟨_, rfl, ?_, ?_⟩
+          · intro o' j k' h'
+            by_cases he : o' = o
+            · subst he; simp at h'
+            · simp only [upd_other _ _ _ _ he] at h'; exact hown o' j k' h'
+          · simp [htodo, mu, headCost, hs]; omega
+      | done =>
+        rw [step_onceDo_done env 0 o c t.priv cfg.sh hs]
+        refine ⟨_, rfl, hown, ?_⟩
+        simp only [if_true]
+        exact popped _ (by rw [step_onceDo_done env 0 o c t.priv cfg.sh hs]) hpos
+    | read r => exact other _ rfl (by intro o h; cases h)
+    | write r v => exact other _ rfl (by intro o h; cases h)
+    | get q => exact other _ rfl (by intro o h; cases h)
+    | use vals => exact other _ rfl (by intro o h; cases h)
+    | readObj => exact other _ rfl (by intro o h; cases h)
+    | reset => exact other _ rfl (by intro o h; cases h)
+    | put q => exact other _ rfl (by intro o h; cases h)
+    | putAgain q => exact other _ rfl (by intro o h; cases h)
+    | optRead o => exact other _ rfl (by intro o h; cases h)
+    | optWrite o v => exact other _ rfl (by intro o h; cases h)
+    | loc v => exact other _ rfl (by intro o h; cases h)
+
+theorem exec_nil_todo (env : Env) (cs : List Nat) : ∀ (cfg : Cfg) (t : Thread), cfg.threads = [t] → t.todo = [] →
+    exec env cfg (cs.map (fun c => (0, c))) = cfg := by
   induction cs with
-  | nil => intro sh t0; exact ⟨sh, t0.priv, by simp [exec]⟩
-  | cons c cs ih =>
-    intro sh t0
-    simp only [List.map_cons, exec, List.foldl_cons]
-    cases htodo : t0.todo with
-    | nil =>
-      have : stepThread { sh := sh, threads := [t0] } 0 c = { sh := sh, threads := [t0] } := by
-        simp [stepThread, htodo]
-      rw [this]
-      obtain ⟨sh', p', h⟩ := ih sh t0
-      refine ⟨sh', p', ?_⟩
-      simp only [exec] at h
-      rw [h, htodo]; simp
-    | cons a rest =>
-      have : stepThread { sh := sh, threads := [t0] } 0 c =
-          { sh := (step a c t0.priv sh).2, threads := [{ priv := (step a c t0.priv sh).1, done := t0.done ++ [a], todo := rest }] } := by
-        simp [stepThread, htodo]
-      rw [this]
-      obtain ⟨sh', p', h⟩ := ih (step a c t0.priv sh).2 { priv := (step a c t0.priv sh).1, done := t0.done ++ [a], todo := rest }
-      refine ⟨sh', p', ?_⟩
-      simp only [exec] at h
-      rw [h]; simp
+  | nil => intro cfg t _ _; rfl
+  | cons c rest ih =>
+    intro cfg t ht hn
+    have h0 : cfg.threads[0]? = some t := by simp [ht]
+    simp only [List.map_cons, exec, List.foldl]
+    rw [stepThread_nil env cfg 0 c t h0 hn]
+    exact ih cfg t ht hn
 
-/-- the operation run alone with enough steps: one finished thread -/
-theorem solo_finished (prog : List Act) (sh0 : Sh) (cs : List Nat) (hcs : prog.length ≤ cs.length) :
-    ∃ ts, (soloExec prog sh0 cs).threads = [ts] ∧ ts.todo = [] ∧ ts.done = prog := by
-  obtain ⟨sh', p', h⟩ := single_exec cs sh0 { priv := initPriv, done := [], todo := prog }
-  refine ⟨_, by unfold soloExec initCfg; simp only [List.map_cons, List.map_nil]; rw [h], ?_, ?_⟩
-  · simp [List.drop_eq_nil_of_le hcs]
-  · simp [List.take_of_length_le hcs]
-
-/-- **No action writes an options object**, in any state: the nil check of `ToMesg` takes the default in a local. -/
-theorem opts_step (a : Act) (c : Nat) (p : Priv) (sh : Sh) : (step a c p sh).2.opts = sh.opts := by
-  cases a <;> simp [step]
-  · by_cases h : sh.once = true <;> simp [h]
-  · cases p.held <;> rfl
-
-theorem opts_stepThread (cfg : Cfg) (i c : Nat) : (stepThread cfg i c).sh.opts = cfg.sh.opts := by
-  unfold stepThread
-  cases cfg.threads[i]? with
-  | none => rfl
-  | some t =>
-    simp only
-    cases t.todo with
+/-- a single thread scheduled `mu` times (or more) has finished, whatever `Get` is given -/
+theorem solo_finishes (env : Env) (henv : EnvOK env) (cell0 : Nat → Nat) (opts0 : Nat → Option Nat) (cs : List Nat) :
+    ∀ (cfg : Cfg) (t : Thread), cfg.threads = [t] → Inv env cell0 opts0 cfg → SoloOwn cfg.sh →
+      mu env cfg.sh t.todo ≤ cs.length →
+      ∃ t', (exec env cfg (cs.map (fun c => (0, c)))).threads = [t'] ∧ t'.todo = [] := by
+  induction cs with
+  | nil =>
+    intro cfg t ht inv _ hmu
+    refine ⟨t, ht, ?_⟩
+    cases htodo : t.todo with
     | nil => rfl
-    | cons a rest => exact opts_step a c t.priv cfg.sh
+    | cons a rest =>
+      exfalso
+      have hk : ∀ o j k, cfg.sh.once o = .running j k → k ≤ closureLen env o := by
+        intro o j k hs
+        have := inv.once o
+        unfold OnceOK at this
+        simp only [hs] at this
+        exact this.1
+      have := headCost_pos env cfg.sh a hk
+      simp [htodo, mu] at hmu
+      omega
+  | cons c rest ih =>
+    intro cfg t ht inv hown hmu
+    by_cases hne : t.todo = []
+    · refine ⟨t, ?_, hne⟩
+      rw [exec_nil_todo env (c :: rest) cfg t ht hne]; exact ht
+    · obtain ⟨t', ht', hown', hlt⟩ := solo_step env henv cell0 opts0 cfg t c ht inv hown hne
+      simp only [List.map_cons, exec, List.foldl]
+      exact ih _ t' ht' (inv_step env henv cell0 opts0 cfg 0 c inv) hown' (by simp at hmu; omega)
 
-/-- under every schedule, from ANY initial configuration, all options objects are what they were at the start -/
-theorem opts_exec (sched : List (Nat × Nat)) : ∀ cfg, (exec cfg sched).sh.opts = cfg.sh.opts := by
-  induction sched with
-  | nil => intro cfg; rfl
-  | cons e es ih => intro cfg; exact (ih _).trans (opts_stepThread cfg e.1 e.2)
+/-! ### sequences of well-formed, balanced programs -/
 
-/-- action `a` (with `Get` choice `c`, private state `p`), executed by step function `stp` in shared state `sh`, WRITES
-options object `o`: the cell afterwards differs from the cell before (semantic; not a list of "writing" constructors) -/
-def WritesOpt (stp : Act → Nat → Priv → Sh → Priv × Sh) (a : Act) (c : Nat) (p : Priv) (sh : Sh) (o : Nat) : Prop :=
-  (stp a c p sh).2.opts o ≠ sh.opts o
+/-- well formed and balanced: ends holding nothing -/
+def wfBal (env : Env) (p : List Act) : Bool :=
+  match wfRun env p initWf with
+  | some w => !w.holding && !w.clean
+  | none => false
 
-/-- a data race on a caller's options object, at model level (for a step semantics `stp`): some thread's next action
-WRITES `options.Factory` of object `o` (for some resolution `c` of `Get`) while another thread still has an
-(unsynchronised) access to the same object ahead of it -/
-def ConflictAtWith (stp : Act → Nat → Priv → Sh → Priv × Sh) (cfg : Cfg) : Prop :=
-  ∃ (i j : Nat) (ti tj : Thread) (a : Act) (rest : List Act) (o c : Nat), i ≠ j ∧ cfg.threads[i]? = some ti ∧
-    cfg.threads[j]? = some tj ∧ ti.todo = a :: rest ∧ WritesOpt stp a c ti.priv cfg.sh o ∧ mentions tj.todo o = true
+def WfLe (w0 w1 : WfSt) : Prop := w0.holding = w1.holding ∧ w0.clean = w1.clean ∧ ∀ o, o ∈ w0.seen → o ∈ w1.seen
 
-/-- the conflict notion for the model's own step function -/
-def ConflictAt (cfg : Cfg) : Prop := ConflictAtWith step cfg
+theorem wfStep_mono (env : Env) (a : Act) (w0 w1 w0' : WfSt) (h : wfStep env a w0 = some w0') (hle : WfLe w0 w1) :
+    ∃ w1', wfStep env a w1 = some w1' ∧ WfLe w0' w1' := by
+  obtain ⟨hh, hc, hs⟩ := hle
+  cases a with
+  | read r =>
+    obtain ⟨rfl, hr, hsn⟩ := wfStep_read h
+    refine ⟨w1, ?_, hh, hc, hs⟩
+    simp only [wfStep, hr, Bool.false_eq_true, if_false]
+    cases hon : env.onceOf r with
+    | none => rfl
+    | some o =>
+      have : o ∈ w1.seen := hs o (hsn o hon)
+      simp [this]
+  | write r v => simp [wfStep] at h
+  | putAgain q => simp [wfStep] at h
+  | optWrite o v => simp [wfStep] at h
+  | onceDo o =>
+    have := wfStep_onceDo h; subst this
+    refine ⟨{ w1 with seen := o :: w1.seen }, by simp [wfStep], hh, hc, ?_⟩
+    intro o' ho'
+    rcases List.mem_cons.mp ho' with e | e
+    · simp [e]
+    · exact List.mem_cons_of_mem _ (hs o' e)
+  | get q =>
+    obtain ⟨h0, rfl⟩ := wfStep_get h
+    refine ⟨{ w1 with holding := true, clean := false }, ?_, rfl, rfl, hs⟩
+    simp [wfStep, ← hh, h0]
+  | use vals =>
+    obtain ⟨h0, rfl⟩ := wfStep_use h
+    exact ⟨w1, by simp [wfStep, ← hh, h0], hh, hc, hs⟩
+  | readObj =>
+    obtain ⟨h0, h1, rfl⟩ := wfStep_readObj h
+    exact ⟨w1, by simp [wfStep, ← hh, ← hc, h0, h1], hh, hc, hs⟩
+  | reset =>
+    obtain ⟨h0, rfl⟩ := wfStep_reset h
+    exact ⟨{ w1 with clean := true }, by simp [wfStep, ← hh, h0], hh, rfl, hs⟩
+  | put q =>
+    obtain ⟨h0, rfl⟩ := wfStep_put h
+    exact ⟨{ w1 with holding := false, clean := false }, by simp [wfStep, ← hh, h0], rfl, rfl, hs⟩
+  | optRead o =>
+    have : w0' = w0 := by simp [wfStep] at h; exact h.symm
+    subst this
+    exact ⟨w1, by simp [wfStep], hh, hc, hs⟩
+  | loc v =>
+    have : w0' = w0 := by simp [wfStep] at h; exact h.symm
+    subst this
+    exact ⟨w1, by simp [wfStep], hh, hc, hs⟩
 
-/-- no configuration at all (reachable or not) has a thread about to write an options object -/
-theorem no_conflict_any (cfg : Cfg) : ¬ ConflictAt cfg := by
-  rintro ⟨i, j, ti, tj, a, rest, o, c, _, _, _, _, hw, _⟩
-  exact hw (by rw [opts_step])
+theorem wfRun_mono (env : Env) (p : List Act) : ∀ (w0 w1 w0' : WfSt), wfRun env p w0 = some w0' → WfLe w0 w1 →
+    ∃ w1', wfRun env p w1 = some w1' ∧ WfLe w0' w1' := by
+  induction p with
+  | nil => intro w0 w1 w0' h hle; simp [wfRun] at h; subst h; exact ⟨w1, rfl, hle⟩
+  | cons a rest ih =>
+    intro w0 w1 w0' h hle
+    simp only [wfRun] at h
+    cases hs : wfStep env a w0 with
+    | none => simp [hs] at h
+    | some wm =>
+      simp only [hs] at h
+      obtain ⟨wm1, hs1, hle1⟩ := wfStep_mono env a w0 w1 wm hs hle
+      obtain ⟨w1', hr1, hle'⟩ := ih wm wm1 w0' h hle1
+      exact ⟨w1', by simp [wfRun, hs1, hr1], hle'⟩
 
-/-- the step semantics of the code BEFORE the repair of KF-C15-1 (`else if options.Factory == nil { options.Factory =
-factory.StandardFactory() }`): the nil check wrote the caller's object. Kept only to show that `ConflictAtWith`
-discriminates (it holds of the old semantics on the finding's witness, and of no configuration under `step`). -/
-def stepPreFix (a : Act) (c : Nat) (p : Priv) (sh : Sh) : Priv × Sh :=
-  match a with
-  | .optRead o =>
-    ((step a c p sh).1, if (sh.opts o).isNone then { sh with opts := fun x => if x = o then some stdFactory else sh.opts x } else sh)
-  | _ => step a c p sh
+theorem wfBal_append (env : Env) (p q : List Act) (hp : wfBal env p = true) (hq : wfBal env q = true) :
+    wfBal env (p ++ q) = true := by
+  unfold wfBal at *
+  cases h1 : wfRun env p initWf with
+  | none => simp [h1] at hp
+  | some w1 =>
+    simp only [h1, Bool.and_eq_true, Bool.not_eq_true'] at hp
+    cases h2 : wfRun env q initWf with
+    | none => simp [h2] at hq
+    | some w2 =>
+      simp only [h2, Bool.and_eq_true, Bool.not_eq_true'] at hq
+      have hle : WfLe initWf w1 := ⟨by simp [initWf, hp.1], by simp [initWf, hp.2], by simp [initWf]⟩
+      obtain ⟨w', hr, hle'⟩ := wfRun_mono env q initWf w1 w2 h2 hle
+      rw [wfRun_append, h1]
+      simp only [Option.bind, hr, Bool.and_eq_true, Bool.not_eq_true']
+      exact ⟨by rw [← hle'.1]; exact hq.1, by rw [← hle'.2.1]; exact hq.2⟩
 
-/-- F16's witness at model level: two `ToMesg` conversions sharing one options object whose `Factory` is nil -/
-def kfProgs : List (List Act) := [progToMesg 0 [1], progToMesg 0 [2]]
-def kfSh : Sh := { once := false, table := fun _ => 0, pool := [], opts := fun _ => none }
+theorem wfBal_flatMap (env : Env) {α : Type} (f : α → List Act) (l : List α) (h : ∀ x ∈ l, wfBal env (f x) = true) :
+    wfBal env (l.flatMap f) = true := by
+  induction l with
+  | nil => simp [wfBal, wfRun, initWf]
+  | cons x rest ih =>
+    rw [List.flatMap_cons]
+    exact wfBal_append env _ _ (h x (by simp)) (ih (fun y hy => h y (List.mem_cons_of_mem _ hy)))
 
-theorem kfSh_ok : ShOK kfSh := ⟨by simp [kfSh], by simp [kfSh]⟩
+theorem wf_of_wfBal (env : Env) (p : List Act) (h : wfBal env p = true) : wf env p = true := by
+  unfold wfBal at h
+  unfold wf
+  cases h1 : wfRun env p initWf with
+  | none => simp [h1] at h
+  | some w => rfl
 
-/-- under the pre-repair semantics the witness is a conflict (this was `C15_KF1_witness`) -/
-theorem kf_conflict_preFix : ConflictAtWith stepPreFix (initCfg kfProgs kfSh) := by
-  refine ⟨0, 1, _, _, .optRead 0, _, 0, 0, by decide, rfl, rfl, rfl, ?_, rfl⟩
-  simp [WritesOpt, stepPreFix, initCfg, kfSh]
+/-! ### the environment read off the inventory is consistent -/
 
-/-- results do not rest on what `Get` hands out: from ANY shared state (pool content arbitrary, not necessarily zeroed)
-and any choice of `Get`, `mesgdef.NewXxx` yields exactly the values it appended -/
-theorem new_result_any_pool (vals : List Nat) (sh : Sh) (c1 c2 c3 c4 : Nat) :
-    ∃ ts, (soloExec (progNew vals) sh [c1, c2, c3, c4]).threads = [ts] ∧ ts.priv.out = vals := by
-  refine ⟨_, rfl, ?_⟩
-  simp [progNew, initPriv]
-
-end Fit.Shared
-
-namespace Fit.Shared
-
-def isOnce : Act → Bool
-  | .onceDo => true
-  | _ => false
-
-theorem once_step (a : Act) (c : Nat) (p : Priv) (sh : Sh) : (step a c p sh).2.once = (sh.once || isOnce a) := by
-  cases a <;> simp [step, isOnce]
-  · by_cases h : sh.once = true <;> simp [h]
-  · cases p.held <;> rfl
-
-theorem table_step (a : Act) (c : Nat) (p : Priv) (sh : Sh) :
-    (step a c p sh).2.table = if sh.once || !isOnce a then sh.table else theTable := by
-  cases a <;> simp [step, isOnce]
-  · by_cases h : sh.once = true <;> simp [h]
-  · cases p.held <;> rfl
-
-/-- shared states that agree except possibly in HOW MANY zeroed arrays the pool holds (`sync.Pool.Get` may allocate) -/
-def ShEq (a b : Sh) : Prop :=
-  a.once = b.once ∧ a.table = b.table ∧ a.opts = b.opts ∧ (∀ x ∈ a.pool, x = zeroArr) ∧ (∀ x ∈ b.pool, x = zeroArr)
-
-/-- **Actions of different operations commute**: executing action `a` of one operation and action `b` of another in
-either order gives the same private states and the same shared state up to the number of zeroed arrays in the pool. -/
-theorem actions_commute (sh0 sh : Sh) (p q : Priv) (a b : Act) (c d : Nat)
-    (hok : ShOK sh) (hrel : OptsRel sh0 sh) (hp : PrivOK sh p) (hq : PrivOK sh q) :
-    (step a c p sh).1 = (step a c p (step b d q sh).2).1 ∧
-    (step b d q (step a c p sh).2).1 = (step b d q sh).1 ∧
-    ShEq (step b d q (step a c p sh).2).2 (step a c p (step b d q sh).2).2 := by
-  obtain ⟨a1, a2, a3, a4, _⟩ := step_spec sh0 sh p a c hok hrel hp
-  obtain ⟨b1, b2, b3, b4, _⟩ := step_spec sh0 sh q b d hok hrel hq
-  obtain ⟨ab1, ab2, _, _, _⟩ := step_spec sh0 (step a c p sh).2 q b d a2 a3 (privOK_mono hq a4)
-  obtain ⟨ba1, ba2, _, _, _⟩ := step_spec sh0 (step b d q sh).2 p a c b2 b3 (privOK_mono hp b4)
-  refine ⟨by rw [a1, ba1], by rw [ab1, b1], ?_, ?_, ?_, ab2.1, ba2.1⟩
-  · simp only [once_step]
-    cases sh.once <;> cases isOnce a <;> cases isOnce b <;> rfl
-  · simp only [table_step, once_step]
-    cases sh.once <;> cases isOnce a <;> cases isOnce b <;> rfl
-  · simp only [opts_step]
+open Fit.SharedInv in
+theorem envOfRows_ok (funcs : Array String) (ex : List Exception) (rows : List Row)
+    (hids : rows.map (·.id) = List.range rows.length) : EnvOK (envOfRows funcs ex rows) := by
+  have hpos : ∀ (i : Nat) (row : Row), rows[i]? = some row → row.id = i := by
+    intro i row h
+    have h1 : (rows.map (·.id))[i]? = some row.id := by simp [List.getElem?_map, h]
+    rw [hids] at h1
+    have hi : i < rows.length := by
+      rcases Nat.lt_or_ge i rows.length with h' | h'
+      · exact h'
+      · rw [List.getElem?_eq_none h'] at h; cases h
+    rw [List.getElem?_range hi] at h1
+    exact (Option.some.inj h1).symm
+  refine ⟨?_, ?_, ?_⟩
+  · intro o r hr
+    simp only [envOfRows, List.mem_map, List.mem_filter] at hr
+    obtain ⟨row, ⟨hmem, hp⟩, hid⟩ := hr
+    obtain ⟨i, hi, hget⟩ := List.getElem_of_mem hmem
+    have hget' : rows[i]? = some row := by rw [List.getElem?_eq_getElem hi, hget]
+    have : row.id = i := hpos i row hget'
+    have hri : r = i := by rw [← hid, this]
+    subst hri
+    simp only [envOfRows, hget']
+    simp only [Bool.and_eq_true, Bool.not_eq_true', beq_iff_eq] at hp
+    simp [hp.1, hp.2]
+  · intro o r hr
+    simp only [envOfRows] at hr
+    cases hrow : rows[r]? with
+    | none => simp [hrow] at hr
+    | some row =>
+      simp only [hrow] at hr
+      simp only [envOfRows, List.mem_map, List.mem_filter]
+      refine ⟨row, ⟨List.mem_of_getElem? hrow, ?_⟩, hpos r row hrow⟩
+      by_cases hc : (row.cat == .pool || row.cat == .once || row.cat == .mutex) = true
+      · simp [hc] at hr
+      · simp only [hc, Bool.false_eq_true, if_false] at hr
+        simp [hc, hr]
+  · intro o
+    simp only [envOfRows]
+    have hsub : ((rows.filter fun row =>
+        !(row.cat == .pool || row.cat == .once || row.cat == .mutex) && row.onceOf == some o).map (·.id)).Sublist
+        (rows.map (·.id)) := List.Sublist.map _ List.filter_sublist
+    refine List.Nodup.sublist hsub ?_
+    rw [hids]; exact List.nodup_range
 
 end Fit.Shared
